@@ -380,8 +380,10 @@ fn judge(rep: &Report, o: &Outcome, replay: serde_json::Value) {
         rep.violation(
             &format!("C08:disconnect({form})-{when}"),
             format!(
-                "disconnect({form}) for an admitted connection returned {:?}; afterwards the connection answered {} sequential pings and received a forwarded datagram",
-                o.request_found, o.pongs_after
+                "disconnect({form}) for an admitted connection returned {:?}; afterwards the connection answered {} sequential pings{}",
+                o.request_found,
+                o.pongs_after,
+                if o.mode == Mode::Duplicate { "" } else { " and received a forwarded datagram" }
             ),
             replay.clone(),
         );
